@@ -23,10 +23,10 @@ class Transport:
         return ("192.0.2.1", 30501)
 
 
-def make_service(outcome):
+def make_service(outcome, svc_id=None, ver=None, methods=None):
     class Svc(V.SimpleService):
-        service_id = SVC
-        version_major = VER
+        service_id = SVC if svc_id is None else svc_id
+        version_major = VER if ver is None else ver
         version_minor = 1
 
     s = Svc(7)
@@ -42,7 +42,7 @@ def make_service(outcome):
             raise V.MalformedMessageError
         return None
 
-    for m in METHODS:
+    for m in (METHODS if methods is None else methods):
         s.register_method(m, handler)
     return s, called
 
@@ -53,7 +53,7 @@ def run(ctx):
     ctx.rule = ("exhaustive over {service ok/not} x {interface version ok/not} x {method known/unknown} x all 10 message types x all 11 return "
                 "codes x 3 handler outcomes x {unicast, multicast} with random ids/payloads on top; each case goes through "
                 "SimpleService.message_received with a recording transport; the reply is compared with the model and judged by the extracted "
-                "spec_reply (the property's table); sequences through ONE service object from seven senders (IPv4 / IPv6, same host other port, link-local addresses differing in scope id or flow label); non-trivial = distinct (message, channel, handler outcome)")
+                "spec_reply (the property's table); sequences through ONE service object from seven senders (IPv4 / IPv6, same host other port, link-local addresses differing in scope id or flow label); the same message to several differently configured services of one process in turn; non-trivial = distinct (message, channel, handler outcome)")
     ctx.exhaustive = True
     ctx.assumptions = ["the handler is a function of the scenario (returns bytes / returns None / raises MalformedMessageError)"]
     addr = ("2001:db8::2", 30501, 0, 0)
@@ -137,6 +137,38 @@ def run(ctx):
             impl.append([reply, bool(called)])
             descr.append(("seq", k, step))
             ctx.case(("seq", k, step, sexp.dumps(arg), repr(sender)), kind="sender-sequence")
+    # SEVERAL differently configured services in one process (other service id / major version / method set): the same
+    # message reaches one after the other; each answers by ITS OWN configuration, whatever another one decided before
+    r3 = random.Random(ctx.seed * 7919 + 116)
+    for k in range(40 if quick else 1500):
+        cfgs = [(SVC, VER, list(METHODS)), (SVC + 1, VER + 1, [METHODS[0], 0x0042]), (SVC, VER + 1, [0x0042])]
+        r3.shuffle(cfgs)
+        outcome = [0, gen.payload(r3, maxlen=12)]
+        svcs = [(c, make_service(outcome, *c)) for c in cfgs[: r3.randint(2, 3)]]
+        for step in range(r3.randint(2, 5)):
+            sid, ver, meths = r3.choice(cfgs)
+            msg = H.SOMEIPHeader(service_id=sid, method_id=r3.choice(meths + [0x0042, METHODS[0]]), client_id=gen.id16(r3), session_id=gen.id16(r3),
+                                 interface_version=ver, message_type=r3.choice([H.SOMEIPMessageType.REQUEST, H.SOMEIPMessageType.REQUEST, H.SOMEIPMessageType.REQUEST_NO_RETURN]),
+                                 return_code=H.SOMEIPReturnCode.E_OK, payload=gen.payload(r3, maxlen=8))
+            for (c_sid, c_ver, c_meths), (svc, called) in (svcs if r3.random() < 0.5 else svcs[::-1]):
+                before = len(svc.transport.sent)
+                del called[:]
+                raised = None
+                with warnings.catch_warnings():
+                    warnings.simplefilter("ignore")
+                    try:
+                        svc.message_received(msg, ("192.0.2.7", 40000), False)
+                    except Exception as exc:  # noqa: BLE001
+                        raised = type(exc).__name__
+                sent = svc.transport.sent[before:]
+                arg = [c_sid, c_ver, c_meths, conv.s_msg(msg), False, outcome]
+                if raised is not None or len(sent) > 1:
+                    ctx.violation("several services in one process: message_received raised or replied more than once", dict(arg=sexp.dumps(arg), raised=raised, replies=len(sent)))
+                reply = [conv.s_msg(H.SOMEIPHeader.parse(sent[0][0])[0])] if sent else None
+                cases.append((1601, arg))
+                impl.append([reply, bool(called)])
+                descr.append(("multi", k, step))
+                ctx.case(("multi", k, step, c_sid, c_ver, sexp.dumps(arg)), kind="several-services")
     outs = compare(ctx, cases, impl, "SimpleService.message_received differs from Model/ServiceRecv.v", lambda i: sexp.dumps(cases[i][1])[:600])
     spec = ctx.model.batch([(1602, c[1]) for c in cases])
     for c, got, want in zip(cases, impl, spec):
